@@ -13,11 +13,21 @@ Proof. intros. ci x. Qed.
 Lemma CI_reg_top : forall d nj inl x, CI 0 0 d nj inl x -> c_reg x = true -> live x /\ c_st x = ESTABLISHED.
 Proof. intros. ci x. Qed.
 
-Lemma allowed_live : forall H J D w c, GI H J D w -> allowed c w = true -> live (conns w c).
+Lemma allowed_live : forall H J (D : dctx) w c, GI H J D w -> allowed c w = true -> live (conns w c).
 Proof.
-  intros H J D w c (A & _ & _) Ha. unfold allowed in Ha. apply andb_true_iff in Ha. destruct Ha as [_ Ha].
+  intros H J D w c (A & _ & _ & _) Ha. unfold allowed in Ha. apply andb_true_iff in Ha. destruct Ha as [_ Ha].
   unfold live. destruct (c_ph (conns w c)) eqn:P; try discriminate; auto.
   pose proof (CI_dead_uref _ _ _ _ _ _ (A c) P) as U. rewrite U in Ha. discriminate.
+Qed.
+
+Lemma GI_not_destroyed_alive : forall H J D w, GI H J D w -> destroy_called w = false -> s_creator w = true /\ s_alloc w = true.
+Proof.
+  intros H J D w G Nd. pose proof G as (_ & _ & _ & (_ & _ & S3 & _)). split; auto.
+  apply (GI_svc_creator _ _ _ _ G); auto.
+Qed.
+Lemma GI_not_destroyed_frame : forall H J (D : dctx) w, GI H J D w -> destroy_called w = false -> dframe D = false.
+Proof.
+  intros H J D w (_ & _ & _ & (_ & _ & _ & S4)) Nd. destruct (dframe D); auto. destruct (S4 eq_refl). congruence.
 Qed.
 
 Section Actions.
@@ -25,7 +35,7 @@ Section Actions.
   Variable cb : kind -> nat -> world -> R.
   Hypothesis Hcb : cb_ok cb.
 
-  Lemma on_conn_ok : forall H J D code t self w f,
+  Lemma on_conn_ok : forall H J (D : dctx) code t self w f,
     (forall c w', GI H J D w' -> live (conns w' c) -> safe (fun w'' _ => GI H J D w'') (f c w')) ->
     GI H J D w -> safe (fun w' _ => GI H J D w') (on_conn code t self w f).
   Proof.
@@ -35,7 +45,7 @@ Section Actions.
     apply Hf. apply logit_GI; auto. simpl. eapply allowed_live; eauto.
   Qed.
 
-  Lemma do_action_ok : forall a self H J D w,
+  Lemma do_action_ok : forall a self H J (D : dctx) w,
     GI H J D w -> safe (fun w' _ => GI H J D w') (do_action shm true cb a self w).
   Proof.
     intros a self H J D w G. destruct a; simpl.
@@ -44,9 +54,8 @@ Section Actions.
       apply on_conn_ok; auto. intros c w' G' L'. pose proof G' as (A' & _ & _).
       unfold conn_ref. apply safe_chk. { simpl. rewrite updf_same. simpl. eapply CI_live_alloc; eauto. }
       simpl. rewrite updf_same. simpl.
-      eapply GI_ext with (w := put c (w_rc (c_rc (conns w' c) + 1) (w_uref (c_uref (conns w' c) + 1) (conns w' c))) w');
-        try reflexivity.
-      + intros i. unfold put, updf; simpl. destruct (Nat.eqb i c); reflexivity.
+      eapply GI_ext with (w := put c (w_rc (c_rc (conns w' c) + 1) (w_uref (c_uref (conns w' c) + 1) (conns w' c))) w').
+      + frame.
       + apply GI_put_same; auto. apply CI_uref_ref; auto. simpl; tauto.
     - (* drop a reference the application holds *)
       destruct (tgt_id t self) as [c|]; [|simpl; apply logit_GI; auto].
@@ -55,8 +64,8 @@ Section Actions.
       pose proof (allowed_live _ _ _ _ _ G Ea) as L. pose proof G as (A & _ & _).
       set (w1 := logit _ w). cbv zeta.
       apply unref_held_ok; auto.
-      + eapply GI_ext with (w := put c (w_uref (c_uref (conns w c) - 1) (conns w c)) w); try reflexivity.
-        eapply GI_put; [exact G | | | | auto].
+      + eapply GI_ext with (w := put c (w_uref (c_uref (conns w c) - 1) (conns w c)) w); [frame|].
+        eapply GI_put; [exact G | | | | auto | reflexivity | reflexivity].
         * intros i Hi. rewrite addf_other; auto.
         * rewrite addf_same. apply CI_uref_to_h; auto.
         * simpl; tauto.
@@ -72,16 +81,26 @@ Section Actions.
       apply andb_true_iff in Ea. destruct Ea as [Ea _].
       apply srv_send_ok; [auto | apply logit_GI; auto | simpl; eapply allowed_live; eauto].
     - (* qb_ipcs_destroy *)
-      destruct (destroy_called w); [simpl; apply logit_GI; auto|].
+      destruct (destroy_called w) eqn:Nd; [simpl; apply logit_GI; auto|].
+      destruct (GI_not_destroyed_alive _ _ _ _ G Nd) as (Cr & Sv).
+      pose proof (GI_not_destroyed_frame _ _ _ _ G Nd) as Df.
       apply destroy_ok; auto.
+      destruct G as (A & B & C & (S1 & S2 & S3 & S4)). split; [|split; [|split]]; auto.
+      split; [|split; [|split]]; auto; try (simpl; intros; discriminate); try (rewrite Df; intros; discriminate).
     - (* rate limit *)
-      destruct (destroy_called w || (rl <? 0) || (4 <? rl)); [simpl; apply logit_GI; auto|].
+      destruct (destroy_called w) eqn:Nd; [simpl; apply logit_GI; auto|]. cbn [orb].
+      destruct ((rl <? 0) || (4 <? rl)); [simpl; apply logit_GI; auto|].
+      destruct (GI_not_destroyed_alive _ _ _ _ G Nd) as (Cr & Sv).
       apply rate_limit_ok; auto.
-    - destruct (destroy_called w); [simpl; apply logit_GI; auto|]. apply iterate_ok; auto.
-    - destruct (destroy_called w); [simpl; apply logit_GI; auto|]. apply iterate_ok; auto.
+    - destruct (destroy_called w) eqn:Nd; [simpl; apply logit_GI; auto|].
+      destruct (GI_not_destroyed_alive _ _ _ _ G Nd) as (Cr & Sv).
+      apply iterate_ok; auto.
+    - destruct (destroy_called w) eqn:Nd; [simpl; apply logit_GI; auto|].
+      destruct (GI_not_destroyed_alive _ _ _ _ G Nd) as (Cr & Sv).
+      apply iterate_ok; auto.
   Qed.
 
-  Lemma do_actions_ok : forall l self H J D w,
+  Lemma do_actions_ok : forall l self H J (D : dctx) w,
     GI H J D w -> safe (fun w' _ => GI H J D w') (do_actions shm true cb l self w).
   Proof.
     induction l; intros; simpl; auto.
@@ -106,12 +125,10 @@ Proof.
   rewrite U.
   apply safe_bind. eapply safe_mono; [| apply (do_actions_ok shm (invoke shm true n) IH (b_acts b) (Some c) H J D)].
   - intros w3 z3 G3. simpl. auto.
-  - eapply GI_ext; [| | | | exact G]; reflexivity.
+  - eapply GI_ext; [|exact G]. frame.
 Qed.
 
 (* ---- whole histories *)
-Definition Z0f : nat -> Z := fun _ => 0.
-Definition Ff : nat -> bool := fun _ => false.
 Definition GI0 (w : world) : Prop := GI Z0f Z0f Ff w.
 
 Section Whole.
@@ -131,10 +148,12 @@ Section Whole.
   Lemma step_ok : forall o w, GI0 w -> safe (fun w' _ => GI0 w') (step shm true depth o w).
   Proof.
     intros o w G. destruct o; simpl.
-    - (* behaviour table entry *) eapply GI_ext; [| | | | exact G]; reflexivity.
+    - (* behaviour table entry *) eapply GI_ext; [|exact G]. frame.
     - (* connect *)
-      destruct (Nat.ltb slot maxslots && negb (destroy_called w) && match slots w slot with None => true | Some _ => false end);
+      destruct (Nat.ltb slot maxslots && negb (destroy_called w) && match slots w slot with None => true | Some _ => false end) eqn:Eg;
         simpl; auto.
+      apply andb_true_iff in Eg. destruct Eg as [Eg _]. apply andb_true_iff in Eg. destruct Eg as [_ Eg].
+      apply negb_true_iff in Eg.
       apply (handle_new_ok cb Hcb); auto. intros i. unfold Z0f. discriminate.
     - (* request *)
       destruct (if Nat.ltb slot maxslots then slots w slot else None) as [c|]; simpl; auto.
@@ -143,10 +162,11 @@ Section Whole.
       apply GI_put_same; auto. apply CI_nreq. apply G. simpl; tauto.
     - (* client goes away *)
       destruct (if Nat.ltb slot maxslots then slots w slot else None) as [c|]; simpl; auto.
-      eapply GI_ext with (w := put c (w_hup true (if empty then w_nreq 0 (conns w c) else conns w c)) w); try reflexivity.
+      eapply GI_ext with (w := put c (w_hup true (if empty then w_nreq 0 (conns w c) else conns w c)) w); [frame|].
       apply GI_put_same; auto.
       + apply CI_hup. destruct empty; [apply CI_nreq|]; apply G.
       + destruct empty; simpl; tauto.
+      + destruct empty; reflexivity.
     - (* main-loop turn *)
       set (w' := if empty && negb shm then put c (w_nreq 0 (conns w c)) w else w).
       assert (G' : GI0 w').
@@ -191,3 +211,21 @@ Lemma CI_top_facts : forall nj inl x, CI 0 0 false nj inl x ->
   (c_alloc x = false -> c_ph x = PNone \/ c_ph x = PDead) /\
   (c_ph x = PDead -> c_alloc x = false /\ c_uref x = 0 /\ c_reg x = false /\ inl = false /\ nj = 0).
 Proof. intros. ci x. Qed.
+
+Lemma service_facts : forall w, GI0 w ->
+  (s_alloc w = false -> s_creator w = false /\ forall c, c_alloc (conns w c) = false) /\
+  (s_alloc w = true -> 1 <= s_rc w /\ (if s_creator w then 1 else 0) + nalloc w <= s_rc w) /\
+  (destroy_called w = false -> s_creator w = true /\ s_alloc w = true).
+Proof.
+  intros w G. pose proof G as (_ & _ & _ & (S1 & S2 & S3 & _)). split; [|split]; auto.
+  - intros Hs. destruct (S2 Hs) as (Cr & N). split; auto. intros c.
+    destruct (c_alloc (conns w c)) eqn:E; auto.
+    pose proof (GI_svc_alive _ _ _ _ c G E). congruence.
+  - intros Nd. apply (GI_not_destroyed_alive _ _ _ _ G Nd).
+Qed.
+
+Lemma lifecycle_all : forall shm depth ops, exists w z, run shm true depth ops world0 = Ok w z /\ GI0 w.
+Proof.
+  intros. pose proof (run_ok shm depth ops world0 GI_world0) as S.
+  destruct (run shm true depth ops world0) as [w z|e w]; simpl in S; [eauto | contradiction].
+Qed.
